@@ -4,7 +4,6 @@ import (
 	"context"
 	"errors"
 	"fmt"
-	"sort"
 	"strings"
 
 	"github.com/pinealctx/neptune/cache"
@@ -27,13 +26,21 @@ type DiffCase struct {
 	TTL  int64   `json:"ttl"` // default ttl of both caches (positive)
 	Keys int     `json:"keys"`
 	Scan ScanCfg `json:"scan"` // how the fake Redis pages its SCAN replies
-	Ops  []Op    `json:"ops"`
+	// Second, if not empty, is the prefix of a second redis-backed cache on the
+	// same server (Op.Inst 1), compared with an in-memory cache of its own.
+	Second string `json:"second,omitempty"`
+	Ops    []Op   `json:"ops"`
 }
 
 const diffMaxKeys = 16
 
+// A ttl of more than maxDurS seconds reaches Redis as maxDurS seconds (a
+// time.Duration holds no more): from that instant up to the in-memory deadline
+// the two back-ends differ by construction, exactly as they do on a deadline.
+// gapLo is the first instant of that stretch (== dl when there is none).
 type refEntry struct {
 	dl       int64
+	gapLo    int64
 	extended bool  // deadline moved by update-ttl
 	oldDl    int64 // deadline before the first update-ttl
 	kept     bool
@@ -52,23 +59,80 @@ func newRef(ttl int64) *ref {
 
 func (r *ref) live(k int) bool {
 	e, ok := r.ent[k]
-	return ok && r.now < e.dl
+	return ok && r.now < e.gapLo
+}
+
+// entry builds the reference entry of a key stored now with a positive ttl.
+func (r *ref) entry(ttl int64) refEntry {
+	e := refEntry{dl: deadlineOf(r.now, ttl)}
+	e.gapLo = e.dl
+	if ttl > maxDurS {
+		e.gapLo = deadlineOf(r.now, maxDurS)
+	}
+	return e
 }
 
 func (r *ref) onDeadline(t int64) bool {
 	for _, e := range r.ent {
-		if e.dl == t {
+		if e.gapLo <= t && t <= e.dl {
 			return true
 		}
 	}
 	return false
 }
 
+// refs are the references of the cache instances of a case (one clock).
+type refs []*ref
+
+func (rs refs) onDeadline(t int64) bool {
+	for _, r := range rs {
+		if r.onDeadline(t) {
+			return true
+		}
+	}
+	return false
+}
+
+// admissibleAt returns the first instant >= t that is neither a deadline nor
+// inside a stretch where the back-ends differ by construction.
+func (rs refs) admissibleAt(t int64) (int64, bool) {
+	for again := true; again; {
+		again = false
+		for _, r := range rs {
+			for _, e := range r.ent {
+				if e.gapLo <= t && t <= e.dl {
+					if e.dl == inf {
+						return 0, false
+					}
+					t, again = e.dl+1, true
+				}
+			}
+		}
+	}
+	return t, true
+}
+
+func (rs refs) nearest() (int64, bool) {
+	best, ok := int64(0), false
+	for _, r := range rs {
+		if d, has := r.nearest(); has && (!ok || d < best) {
+			best, ok = d, true
+		}
+	}
+	return best, ok
+}
+
+func (rs refs) advance(dt int64) {
+	for _, r := range rs {
+		r.now += dt
+	}
+}
+
 // nearest pending deadline
 func (r *ref) nearest() (int64, bool) {
 	best, ok := int64(0), false
 	for _, e := range r.ent {
-		if e.dl > r.now && (!ok || e.dl < best) {
+		if e.dl > r.now && e.dl != inf && (!ok || e.dl < best) {
 			best, ok = e.dl, true
 		}
 	}
@@ -77,7 +141,11 @@ func (r *ref) nearest() (int64, bool) {
 
 // admissible reports whether the property's quantifier covers the operation in
 // the current state ("" = yes, otherwise the reason).
-func (r *ref) admissible(o Op, keys int) string {
+func (rs refs) admissible(o Op, keys int) string {
+	if o.Inst < 0 || o.Inst >= len(rs) {
+		return "op-on-unknown-instance"
+	}
+	r := rs[o.Inst]
 	switch o.Kind {
 	case "set", "get", "remove":
 		if o.Key < 0 || o.Key >= keys {
@@ -108,10 +176,10 @@ func (r *ref) admissible(o Op, keys int) string {
 		}
 	case "remove", "clear":
 	case "advance":
-		if o.Dt < 0 || o.Dt > 1<<40 {
+		if o.Dt < 0 || o.Dt > inf-r.now {
 			return "advance-out-of-range"
 		}
-		if r.onDeadline(r.now + o.Dt) {
+		if rs.onDeadline(r.now + o.Dt) {
 			return "advance-onto-deadline"
 		}
 	default:
@@ -145,7 +213,7 @@ func (r *ref) apply(o Op) (expect string, classes []string) {
 			if r.gone[k] == "consumed" {
 				classes = append(classes, "mne-after-consume")
 			}
-			r.ent[k] = refEntry{dl: r.now + ttl}
+			r.ent[k] = r.entry(ttl)
 			return "ok", classes
 		}
 		if o.Keep { // admissible only on a live key
@@ -154,7 +222,7 @@ func (r *ref) apply(o Op) (expect string, classes []string) {
 			r.ent[k] = e
 			return "ok", append(classes, "keepttl-on-live")
 		}
-		r.ent[k] = refEntry{dl: r.now + ttl}
+		r.ent[k] = r.entry(ttl)
 		return "ok", classes
 	case "get":
 		e, had := r.ent[k]
@@ -187,10 +255,11 @@ func (r *ref) apply(o Op) (expect string, classes []string) {
 			if !e.extended {
 				e.extended, e.oldDl = true, e.dl
 			}
-			if r.now+ttl < e.dl {
+			ne := r.entry(ttl)
+			if ne.dl < e.dl {
 				classes = append(classes, "update-ttl-shortens")
 			}
-			e.dl = r.now + ttl
+			e.dl, e.gapLo = ne.dl, ne.gapLo
 			e.kept = false
 			r.ent[k] = e
 			classes = append(classes, "update-ttl-hit")
@@ -217,6 +286,12 @@ func (r *ref) apply(o Op) (expect string, classes []string) {
 	return "", classes
 }
 
+// secondPrefixes: no second cache (most cases), an unrelated prefix, a prefix
+// that extends the first cache's prefix (the first cache's Clear legitimately
+// covers those keys, the second's must leave the first cache alone) and a prefix
+// that the first cache's prefix extends (the other way round).
+var secondPrefixes = []string{"", "", "", "", "d05:", "c05:sub:", "c0"}
+
 func GenDiff(t *rapid.T) DiffCase {
 	c := DiffCase{
 		TTL:  rapid.SampledFrom([]int64{1, 3, 10}).Draw(t, "ttl"),
@@ -227,30 +302,41 @@ func GenDiff(t *rapid.T) DiffCase {
 			Gap:     rapid.SampledFrom([]int{0, 0, 1, 2, 3}).Draw(t, "gap"),
 			Reuse:   rapid.Bool().Draw(t, "reuse"),
 		},
+		Second: rapid.SampledFrom(secondPrefixes).Draw(t, "second"),
 	}
-	r := newRef(c.TTL)
-	for _, p := range genProtos(t, c.Keys, true) {
+	rs := refs{newRef(c.TTL)}
+	if c.Second != "" {
+		rs = append(rs, newRef(c.TTL))
+	}
+	for _, p := range genProtos(t, genCfg{keys: c.Keys, diff: true, insts: len(rs)}) {
 		for _, o := range p.Ops {
+			r := rs[o.Inst]
 			switch o.Kind {
 			case "set":
 				// keep-ttl on live keys only (the property's restriction)
 				o.Keep = o.Keep && r.live(o.Key)
 			case "advance":
 				if p.Rel != 0 {
-					near, ok := r.nearest()
+					near, ok := rs.nearest()
 					rel := p.Rel
 					if rel == 1 { // "exactly onto" is excluded here: aim just before instead
 						rel = 3
 					}
 					o.Dt = relAdvance(rel, o.Dt, r.now, near, ok)
 				}
-				// never exactly on a deadline (the property's restriction)
-				for r.onDeadline(r.now + o.Dt) {
-					o.Dt++
+				// never exactly on a deadline, never where the back-ends differ by
+				// construction (the property's restriction)
+				if o.Dt < 0 || o.Dt > inf-r.now {
+					o.Dt = 0
+				}
+				if at, ok := rs.admissibleAt(r.now + o.Dt); ok {
+					o.Dt = at - r.now
+				} else {
+					o.Dt = 0
 				}
 			}
-			if r.admissible(o, c.Keys) == "" {
-				r.apply(o)
+			if rs.admissible(o, c.Keys) == "" {
+				rs.apply(o, c.prefixes())
 			}
 			c.Ops = append(c.Ops, o)
 		}
@@ -259,6 +345,42 @@ func GenDiff(t *rapid.T) DiffCase {
 }
 
 const rdsPrefix = "c05:"
+
+func (c DiffCase) prefixes() []string {
+	if c.Second == "" {
+		return []string{rdsPrefix}
+	}
+	return []string{rdsPrefix, c.Second}
+}
+
+// covered lists the instances whose keys a Clear of instance i removes: i
+// itself and every instance whose prefix starts with i's prefix (its keys are
+// keys of i's key space too).
+func covered(prefixes []string, i int) []int {
+	var out []int
+	for j, p := range prefixes {
+		if j == i || strings.HasPrefix(p, prefixes[i]) {
+			out = append(out, j)
+		}
+	}
+	return out
+}
+
+// apply advances the references by an admissible operation.
+func (rs refs) apply(o Op, prefixes []string) (expect string, classes []string) {
+	switch o.Kind {
+	case "advance":
+		rs.advance(o.Dt)
+		return "", nil
+	case "clear":
+		for _, j := range covered(prefixes, o.Inst) {
+			_, cl := rs[j].apply(o)
+			classes = append(classes, cl...)
+		}
+		return "", classes
+	}
+	return rs[o.Inst].apply(o)
+}
 
 func outcome(err error) string {
 	switch {
@@ -274,7 +396,8 @@ func outcome(err error) string {
 
 func ExecDiff(c DiffCase) *vkit.Result {
 	res := &vkit.Result{}
-	if c.TTL <= 0 || c.Keys < 1 || c.Keys > diffMaxKeys {
+	if c.TTL <= 0 || c.Keys < 1 || c.Keys > diffMaxKeys || len(c.Second) > 32 || c.Second == rdsPrefix ||
+		strings.ContainsAny(c.Second, "*?[]\\") {
 		res.Skip("malformed-case")
 		return res
 	}
@@ -283,22 +406,42 @@ func ExecDiff(c DiffCase) *vkit.Result {
 	restore := cache.VerifSetNow(clock)
 	defer restore()
 	ctx := context.Background()
-	mem := cache.NewTTLMemCache(1<<20, c.TTL)
 	fake := newFakeRedis(clock, c.Scan)
-	rds := cache.NewTTLRdsCache(fake, rdsPrefix, c.TTL)
-	r := newRef(c.TTL)
+	prefixes := c.prefixes()
+	var mems, rdss []cache.TTLCache
+	var rs refs
+	for _, p := range prefixes {
+		mems = append(mems, cache.NewTTLMemCache(1<<20, c.TTL))
+		rdss = append(rdss, cache.NewTTLRdsCache(fake, p, c.TTL))
+		rs = append(rs, newRef(c.TTL))
+	}
+	switch {
+	case c.Second == "":
+	case strings.HasPrefix(c.Second, rdsPrefix):
+		res.Class("second-cache:prefix-extends-the-first")
+	case strings.HasPrefix(rdsPrefix, c.Second):
+		res.Class("second-cache:prefix-of-the-first")
+	default:
+		res.Class("second-cache:unrelated-prefix")
+	}
+	vr := newValuer()
 	var log []string
 	fail := func(site string, step int, format string, a ...any) *vkit.Result {
 		l := log
 		if len(l) > 60 {
 			l = l[len(l)-60:]
 		}
-		return res.Failf(site, "step [%d]: %s\ndefault-ttl=%d history (mem | rds): %s\nlast redis commands: %s",
-			step, fmt.Sprintf(format, a...), c.TTL, strings.Join(l, "; "), strings.Join(fake.Tail(8), "; "))
+		return res.Failf(site, "step [%d]: %s\ndefault-ttl=%d prefixes=%q history (mem | rds): %s\nlast redis commands: %s",
+			step, fmt.Sprintf(format, a...), c.TTL, prefixes, strings.Join(l, "; "), strings.Join(fake.Tail(8), "; "))
 	}
 	nt := false
-	doGet := func(step int, o Op, site string) bool {
-		want, classes := r.apply(o)
+	name := func(o Op) string {
+		if len(prefixes) > 1 {
+			return fmt.Sprintf("cache%d.%s", o.Inst, o)
+		}
+		return o.String()
+	}
+	classify := func(classes []string) {
 		for _, cl := range classes {
 			if cl == "nt" {
 				nt = true
@@ -306,67 +449,81 @@ func ExecDiff(c DiffCase) *vkit.Result {
 				res.Class(cl)
 			}
 		}
-		mv, merr := mem.Get(ctx, keyName(o.Key), getOpts(o)...)
-		rv, rerr := rds.Get(ctx, keyName(o.Key), getOpts(o)...)
+	}
+	doGet := func(step int, o Op, site string) bool {
+		want, classes := rs.apply(o, prefixes)
+		classify(classes)
+		mv, merr := mems[o.Inst].Get(ctx, keyName(o.Key), getOpts(o)...)
+		rv, rerr := rdss[o.Inst].Get(ctx, keyName(o.Key), getOpts(o)...)
 		mo, ro := outcome(merr), outcome(rerr)
 		if merr == nil {
-			mo = fmt.Sprintf("%q", mv)
+			mo = short(string(mv))
 		}
 		if rerr == nil {
-			ro = fmt.Sprintf("%q", rv)
+			ro = short(string(rv))
 		}
-		log = append(log, fmt.Sprintf("[%d] %s -> %s | %s", step, o, mo, ro))
+		log = append(log, fmt.Sprintf("[%d] %s -> %s | %s", step, name(o), mo, ro))
 		if (merr == nil) != (rerr == nil) || outcome(merr) != outcome(rerr) {
-			fail(site, step, "%s: in-memory says %s, redis-backed says %s (the statement expects a %s)", o, mo, ro, want)
+			fail(site, step, "%s: in-memory says %s, redis-backed says %s (the statement expects a %s)", name(o), mo, ro, want)
 			return false
 		}
 		if merr == nil && string(mv) != string(rv) {
-			fail(site+"-value", step, "%s: in-memory returned %q, redis-backed returned %q", o, mv, rv)
+			fail(site+"-value", step, "%s: in-memory returned %s, redis-backed returned %s", name(o), mo, ro)
 			return false
+		}
+		if merr == nil && len(mv) == 0 {
+			res.Class("hit-with-empty-value")
 		}
 		return true
 	}
+	// foreign: keys of the server that belong to no cache of the case must outlive every Clear
+	foreignGone := func(step int, what string) bool {
+		if k := fake.MissingForeign(prefixes); k != "" {
+			fail("diff/clear/foreign-key-deleted", step, "after %s the server no longer holds %q, a key outside the prefixes of the caches", what, k)
+			return true
+		}
+		return false
+	}
 	for i, o := range c.Ops {
-		if why := r.admissible(o, c.Keys); why != "" {
+		if why := rs.admissible(o, c.Keys); why != "" {
 			res.Skip(why)
 			continue
 		}
 		switch o.Kind {
 		case "set":
-			want, classes := r.apply(o)
-			for _, cl := range classes {
-				if cl == "nt" {
-					nt = true
-				} else {
-					res.Class(cl)
-				}
+			v, _, ok := vr.value(i, o)
+			if !ok {
+				res.Skip("unknown-value-kind")
+				continue
 			}
-			v := []byte(valueOf(i))
-			merr := mem.Set(ctx, keyName(o.Key), v, setOpts(o)...)
-			rerr := rds.Set(ctx, keyName(o.Key), v, setOpts(o)...)
-			log = append(log, fmt.Sprintf("[%d] %s -> %s | %s", i, o, outcome(merr), outcome(rerr)))
+			if ttl := o.TTL; o.HasTTL && ttl > maxDurS {
+				res.Class("ttl-beyond-duration-range")
+			}
+			want, classes := rs.apply(o, prefixes)
+			classify(classes)
+			merr := mems[o.Inst].Set(ctx, keyName(o.Key), v, setOpts(o)...)
+			rerr := rdss[o.Inst].Set(ctx, keyName(o.Key), v, setOpts(o)...)
+			log = append(log, fmt.Sprintf("[%d] %s -> %s | %s", i, name(o), outcome(merr), outcome(rerr)))
 			if outcome(merr) != outcome(rerr) {
-				return fail("diff/set", i, "%s: in-memory says %s, redis-backed says %s (the statement expects %s)", o, outcome(merr), outcome(rerr), want)
+				return fail("diff/set", i, "%s: in-memory says %s, redis-backed says %s (the statement expects %s)", name(o), outcome(merr), outcome(rerr), want)
 			}
 		case "get":
 			if !doGet(i, o, "diff/get") {
 				return res
 			}
 		case "remove":
-			r.apply(o)
-			merr := mem.Remove(ctx, keyName(o.Key))
-			rerr := rds.Remove(ctx, keyName(o.Key))
-			log = append(log, fmt.Sprintf("[%d] %s -> %s | %s", i, o, outcome(merr), outcome(rerr)))
+			rs.apply(o, prefixes)
+			merr := mems[o.Inst].Remove(ctx, keyName(o.Key))
+			rerr := rdss[o.Inst].Remove(ctx, keyName(o.Key))
+			log = append(log, fmt.Sprintf("[%d] %s -> %s | %s", i, name(o), outcome(merr), outcome(rerr)))
 			if outcome(merr) != outcome(rerr) {
-				return fail("diff/remove", i, "%s: in-memory says %s, redis-backed says %s", o, outcome(merr), outcome(rerr))
+				return fail("diff/remove", i, "%s: in-memory says %s, redis-backed says %s", name(o), outcome(merr), outcome(rerr))
 			}
 		case "clear":
-			_, classes := r.apply(o)
-			for _, cl := range classes {
-				res.Class(cl)
-			}
+			_, classes := rs.apply(o, prefixes)
+			classify(classes)
 			// how a complete SCAN of the prefix is paged right now (labels only)
-			layout := fake.ScanLayout(rdsPrefix + "*")
+			layout := fake.ScanLayout(prefixes[o.Inst] + "*")
 			withKeys, total := 0, 0
 			for _, n := range layout {
 				total += n
@@ -389,31 +546,44 @@ func ExecDiff(c DiffCase) *vkit.Result {
 					res.Class("clear-empty-scan-page-in-the-middle")
 				}
 			}
-			mem.Clear(ctx)
-			rds.Clear(ctx)
-			log = append(log, fmt.Sprintf("[%d] Clear() scan pages %v", i, layout))
+			if fake.ForeignCount() > 0 {
+				res.Class("clear-with-foreign-keys-on-the-server")
+			}
+			for _, j := range covered(prefixes, o.Inst) {
+				mems[j].Clear(ctx)
+			}
+			rdss[o.Inst].Clear(ctx)
+			log = append(log, fmt.Sprintf("[%d] %s scan pages %v", i, name(o), layout))
+			if foreignGone(i, name(o)) {
+				return res
+			}
 		case "advance":
-			r.apply(o)
+			rs.apply(o, prefixes)
 			clk += o.Dt
+			if o.Dt >= maxDurS {
+				res.Class("advance-beyond-duration-range")
+			}
 			log = append(log, fmt.Sprintf("[%d] Advance(%d) now=t0+%d", i, o.Dt, clk-t0))
 		}
 	}
-	// final probe of every key on both back-ends
-	keys := make([]int, 0, c.Keys)
-	for k := 0; k < c.Keys; k++ {
-		keys = append(keys, k)
-	}
-	sort.Ints(keys)
-	for _, k := range keys {
-		if !doGet(len(c.Ops)+k, Op{Kind: "get", Key: k}, "diff/final-probe") {
-			return res
+	// final probe of every key of every cache on both back-ends
+	step := len(c.Ops)
+	for inst := range prefixes {
+		for k := 0; k < c.Keys; k++ {
+			if !doGet(step, Op{Kind: "get", Key: k, Inst: inst}, "diff/final-probe") {
+				return res
+			}
+			step++
 		}
+	}
+	if foreignGone(step, "the history") {
+		return res
 	}
 	res.NonTrivial = nt
 	return res
 }
 
-const ruleDiff = "rapid: default ttl in {1,3,10}, 1..12 keys (small counts weighted), the fake's SCAN shape (page size in {1,2,3,10} slots per call, 0..4 keys of a foreign prefix up front, optionally another foreign key after every 1st..3rd new key, holes reused or not), 1..40 independently drawn elements with the same mix and scripted shapes as part mem but restricted as the property says - positive ttls only (WithTTL in {1,2,3,5,10}, update-ttl in {0=default,1,2,5,10}), keep-ttl only on keys the reference knows to be live, Advance amounts bumped so that the clock never equals a pending deadline (just before / just past the nearest deadline are drawn on purpose); inadmissible ops produced by shrinking are skipped and counted. The same history is applied to NewTTLMemCache(2^20) and NewTTLRdsCache(fake redis.Cmdable with Redis semantics on the same virtual clock); Clear is drawn at 3% plus a scripted shape (Set many keys with ttl 10, Clear, Get the last and the first, Set must-not-exist the last) at 1% per element, so that the prefix regularly spans several SCAN pages when Clear runs (classes clear-spans-several-scan-pages, clear-first-scan-page-empty, clear-empty-scan-page-in-the-middle); oracle: identical ok / AlreadyExists / hit / miss outcome and identical value at every step and in a final probe of every key. Non-trivial: some Get or must-not-exist Set happens on a key whose ttl has elapsed, or a hit happens after the original deadline thanks to update-ttl; distinct = distinct case JSON"
+const ruleDiff = "rapid: default ttl in {1,3,10}, 1..12 keys (small counts weighted), the fake's SCAN shape (page size in {1,2,3,10} slots per call - whatever COUNT the client sends, it is a hint -, 0..4 keys of a foreign prefix up front, optionally another foreign key after every 1st..3rd new key, holes reused or not), in 3/7 of the cases a second redis-backed cache on the same fake server (prefix unrelated / extending the first cache's prefix / a prefix of it) with an in-memory cache of its own, every element addressed to one of them; 1..40 independently drawn elements with the same mix, value kinds (unique, empty, nil, long, one slice under several keys) and scripted shapes as part mem but restricted as the property says - positive ttls only (WithTTL in {1,2,3,5,10}, update-ttl in {0=default,1,2,5,10}, 1/6 of either a long one up to MaxInt64), keep-ttl only on keys the reference knows to be live, Advance amounts bumped so that the clock never equals a pending deadline (just before / just past the nearest deadline are drawn on purpose) and never lies between the 292 years a time.Duration can carry to Redis and the in-memory deadline of a longer ttl; inadmissible ops produced by shrinking are skipped and counted. The same history is applied to NewTTLMemCache(2^20) and NewTTLRdsCache(fake redis.Cmdable with Redis semantics on the same virtual clock, overflow-free); Clear is drawn at 3% plus a scripted shape (Set many keys with ttl 10, Clear, Get the last and the first, Set must-not-exist the last) at 1% per element, so that the prefix regularly spans several SCAN pages when Clear runs (classes clear-spans-several-scan-pages, clear-first-scan-page-empty, clear-empty-scan-page-in-the-middle); a Clear of one cache clears the in-memory side of exactly the caches whose prefix starts with its prefix. Oracle: identical ok / AlreadyExists / hit / miss outcome and identical value at every step and in a final probe of every key of every cache; every key the fake holds outside the caches' prefixes is still there after each Clear and at the end. Non-trivial: some Get or must-not-exist Set happens on a key whose ttl has elapsed, or a hit happens after the original deadline thanks to update-ttl; distinct = distinct case JSON"
 
 var PartDiff = &vkit.Part[DiffCase]{
 	Property: Property, Name: "diff",
